@@ -15,25 +15,62 @@ class Session:
             cmd = ['cvc5', '--lang', 'smt2', '--incremental', '--tlimit-per=%d' % (timeout_s * 1000)]
         else:
             raise ValueError(kind)
-        self.p = subprocess.Popen(cmd, stdin=subprocess.PIPE, stdout=subprocess.PIPE, stderr=subprocess.STDOUT,
-                                  text=True, bufsize=1)
-        self.defined_terms = 0
-        self.declared = set()
+        self.cmd = cmd
+        if logic is None and kind == 'cvc5':
+            logic = 'QF_NRA'
+        self.logic = logic
         self.log = open(log, 'w') if log else None
         self.queries = 0
         self.solver_time = 0.0
         self.errors = []
-        if logic is None and kind == 'cvc5':
-            logic = 'QF_NRA'
-        if logic:
-            self.send('(set-logic %s)' % logic)
-        if kind.startswith('z3'):
-            self.send('(set-option :timeout %d)' % (timeout_s * 1000))
+        self.restarts = 0
+        self._start()
+
+    def _start(self):
+        self.p = subprocess.Popen(self.cmd, stdin=subprocess.PIPE, stdout=subprocess.PIPE, stderr=subprocess.STDOUT, bufsize=0)
+        self.rbuf = b''
+        self.wbuf = []
+        self.defined_terms = 0
+        self.declared = set()
+        self.dead = False
+        if self.logic:
+            self.send('(set-logic %s)' % self.logic)
+        if self.kind.startswith('z3'):
+            self.send('(set-option :timeout %d)' % (self.timeout_s * 1000))
 
     def send(self, s):
         if self.log:
             self.log.write(s + '\n')
-        self.p.stdin.write(s + '\n')
+        self.wbuf.append(s)
+        if len(self.wbuf) > 2000:
+            self.flush()
+
+    def flush(self):
+        if not self.wbuf:
+            return
+        data = ('\n'.join(self.wbuf) + '\n').encode()
+        self.wbuf = []
+        try:
+            self.p.stdin.write(data)
+        except (BrokenPipeError, ValueError, OSError):
+            self.dead = True
+
+    def readline(self, deadline):
+        """one line of solver output; None on timeout, '' on EOF"""
+        fd = self.p.stdout.fileno()
+        while b'\n' not in self.rbuf:
+            remaining = deadline - time.time()
+            if remaining <= 0:
+                return None
+            r, _, _ = select.select([fd], [], [], min(remaining, 5.0))
+            if not r:
+                continue
+            chunk = os.read(fd, 65536)
+            if not chunk:
+                return ''
+            self.rbuf += chunk
+        line, self.rbuf = self.rbuf.split(b'\n', 1)
+        return line.decode(errors='replace').strip() + '\n'
 
     def sync_terms(self, T):
         """declare variables and define terms created since the last call"""
@@ -49,6 +86,9 @@ class Session:
     def check(self, assertions, want_model=False, model_vars=()):
         """push; assert all; check-sat; pop.  returns (answer, seconds, model dict|None).
         any '(error' line makes the answer 'error' (inconclusive)."""
+        if self.dead:
+            self.restarts += 1
+            self._start()
         if getattr(self, 'T', None) is not None:
             self.sync_terms(self.T)
         self.send('(push 1)')
@@ -56,22 +96,28 @@ class Session:
             self.send('(assert %s)' % a)
         marker = 'MARK_%d' % self.queries
         if self.kind.startswith('z3') and self.tactic:
-            # the incremental core of z3 is hopeless on these polynomial queries; the QF_NRA tactic decides them
-            self.send('(check-sat-using %s)' % self.tactic)
+            # the incremental core of z3 is hopeless on these polynomial queries; the QF_NRA tactic decides them.
+            # (set-option :timeout) does not bound tactics: try-for does.
+            self.send('(check-sat-using (try-for %s %d))' % (self.tactic, self.timeout_s * 1000))
         else:
             self.send('(check-sat)')
         self.send('(echo "%s")' % marker)
-        self.p.stdin.flush()
+        self.flush()
         t0 = time.time()
         lines = []
-        deadline = t0 + self.timeout_s * 3 + 30
+        deadline = t0 + self.timeout_s * 1.5 + 20
+        killed = False
         while True:
-            if time.time() > deadline:
+            line = self.readline(deadline)
+            if line is None:
+                # hard wall-clock guard: the solver ignored its own limit; kill it, the session is restarted lazily
                 lines.append('timeout-wallclock')
+                self.p.kill()
+                killed = True
                 break
-            line = self.p.stdout.readline()
-            if not line:
+            if line == '':
                 lines.append('(error "solver died")')
+                killed = True
                 break
             line = line.strip()
             if line == marker or line == '"%s"' % marker:
@@ -81,6 +127,8 @@ class Session:
         dt = time.time() - t0
         self.queries += 1
         self.solver_time += dt
+        if killed:
+            self.dead = True
         ans = 'error'
         for l in lines:
             if l in ('sat', 'unsat', 'unknown'):
@@ -94,10 +142,10 @@ class Session:
         if ans == 'sat' and want_model and model_vars:
             self.send('(get-value (%s))' % ' '.join(model_vars))
             self.send('(echo "%s_m")' % marker)
-            self.p.stdin.flush()
+            self.flush()
             buf = []
             while True:
-                line = self.p.stdout.readline()
+                line = self.readline(time.time() + 30)
                 if not line:
                     break
                 line = line.strip()
@@ -105,12 +153,14 @@ class Session:
                     break
                 buf.append(line)
             model = ' '.join(buf)
-        self.send('(pop 1)')
+        if not self.dead:
+            self.send('(pop 1)')
         return ans, dt, model
 
     def close(self):
         try:
             self.send('(exit)')
+            self.flush()
             self.p.stdin.close()
             self.p.wait(timeout=5)
         except Exception:
